@@ -15,6 +15,9 @@ def stories():
         {"id": "late-ack-after-reconnect", "keys": 2, "memWindow": 0, "gens": [{"upstream": ["lateAck", "resetAfter1", "lateAck"], "clients": [c(40, 5, 35), c(10)], "stopAfterMs": 60}, fin]},
         {"id": "spill-then-restart", "keys": 1, "memWindow": 2, "gens": [{"upstream": ["noAck"], "clients": [c(120, 6, 35), c(60, 6, 35, 20)], "stopAfterMs": 50}, {"upstream": ["resetAfter2", "healthy"], "clients": [c(20, 5, 35)], "stopAfterMs": 80}, fin]},
         {"id": "silent-upstream-full-ack-window", "keys": 1, "memWindow": 0, "gens": [{"upstream": ["noAck"], "clients": [c(96, 3, 32)], "stopAfterMs": 40}, {"upstream": ["noAck", "healthy"], "clients": [c(30, 3, 32)], "stopAfterMs": 30}, fin]},
+        # clients that never close: the stop has to close their sockets, and what was read before it is delivered or persisted
+        {"id": "open-connections-at-stop", "keys": 2, "memWindow": 0, "gens": [{"upstream": ["healthy"], "clients": [dict(c(7), keepOpen=True), dict(c(12, 5, 10), keepOpen=True), c(5)], "stopAfterMs": 0, "inputFlushMs": 400}, fin]},
+        {"id": "open-connections-at-stop-upstream-down", "keys": 1, "memWindow": 0, "gens": [{"upstream": ["closeNow"] * 10, "clients": [dict(c(3), keepOpen=True), dict(c(1), keepOpen=True)], "stopAfterMs": 10, "inputFlushMs": 400}, fin]},
         {"id": "stop-mid-retry", "keys": 2, "memWindow": 0, "gens": [{"upstream": ["closeNow"] * 30, "clients": [c(20, 5, 35)], "stopAfterMs": 0}, {"upstream": ["noAck"], "clients": [c(20, 5, 35)], "stopAfterMs": 0}, fin]},
     ]
 
@@ -30,6 +33,10 @@ def random_script(sid, rnd, reload_kinds=()):
             gen["reloadAtMs"] = rnd.choice([0, 5, 20, 50, 90, 150])
             if gen["reload"] == "keysdrop":
                 gen["twoKeys"] = True
+        if rnd.random() < 0.2:
+            gen["inputFlushMs"] = 400
+            for cl in gen["clients"][: rnd.randint(1, len(gen["clients"]))]:
+                cl["keepOpen"] = True
         gens.append(gen)
     gens.append({"upstream": [], "clients": [{"n": 2, "pauseEvery": 0, "pauseMs": 0, "delayMs": 0}], "stopAfterMs": 20, "drain": True})
     return {"id": sid, "keys": rnd.choice([1, 2, 2, 3]), "memWindow": rnd.choice([0, 0, 2, 4]), "gens": gens}
